@@ -9,7 +9,7 @@ from typing import Any, Dict, Optional
 
 from .parser import Parser
 from .compiler import Compiler
-from .vm import VM, _ScriptThrow, js_pow
+from .vm import VM, _ScriptThrow, as_double, js_pow
 from .values import (
     UNDEFINED,
     NULL,
@@ -830,41 +830,8 @@ class Context:
             return x == int(x)
 
         def parseInt_fn(*args):
-            s = to_string(args[0]) if args else ""
-            radix = int(to_number(args[1])) if len(args) > 1 else 10
-            if radix == 0:
-                radix = 10
-            s = s.strip()
-            if not s:
-                return float("nan")
-            # Handle leading sign
-            sign = 1
-            if s.startswith("-"):
-                sign = -1
-                s = s[1:]
-            elif s.startswith("+"):
-                s = s[1:]
-            # Handle 0x prefix for hex
-            if s.startswith("0x") or s.startswith("0X"):
-                radix = 16
-                s = s[2:]
-            # Parse digits
-            result = 0
-            found = False
-            for ch in s:
-                if ch.isdigit():
-                    digit = ord(ch) - ord("0")
-                elif ch.isalpha():
-                    digit = ord(ch.lower()) - ord("a") + 10
-                else:
-                    break
-                if digit >= radix:
-                    break
-                result = result * radix + digit
-                found = True
-            if not found:
-                return float("nan")
-            return sign * result
+            # Number.parseInt is the global parseInt
+            return self._global_parseint(*args)
 
         def parseFloat_fn(*args):
             # Number.parseFloat is the global parseFloat
@@ -1170,38 +1137,45 @@ class Context:
 
     def _global_parseint(self, *args):
         """Global parseInt."""
-        s = to_string(args[0]) if args else ""
-        radix = int(to_number(args[1])) if len(args) > 1 else 10
+        s = to_string(args[0]) if args else "undefined"
+        s = s.lstrip(JS_WHITESPACE)
+        negative = s.startswith("-")
+        if s[:1] in ("+", "-"):
+            s = s[1:]
+        # the radix is taken ToInt32; 0 (also from undefined or NaN) means
+        # "10, or 16 after a 0x prefix", anything else outside 2..36 is no radix
+        radix = to_number(args[1]) if len(args) > 1 else 0
+        if isinstance(radix, float):
+            radix = 0 if math.isnan(radix) or math.isinf(radix) else int(radix)
+        radix &= 0xFFFFFFFF
+        if radix >= 0x80000000:
+            radix -= 0x100000000
+        if radix == 0 or radix == 16:
+            if s[:2] in ("0x", "0X"):
+                s = s[2:]
+                radix = 16
         if radix == 0:
             radix = 10
-        s = s.strip()
-        if not s:
+        if radix < 2 or radix > 36:
             return float("nan")
-        sign = 1
-        if s.startswith("-"):
-            sign = -1
-            s = s[1:]
-        elif s.startswith("+"):
-            s = s[1:]
-        if s.startswith("0x") or s.startswith("0X"):
-            radix = 16
-            s = s[2:]
-        result = 0
-        found = False
-        for ch in s:
-            if ch.isdigit():
+        end = 0
+        while end < len(s):
+            ch = s[end]
+            if "0" <= ch <= "9":
                 digit = ord(ch) - ord("0")
-            elif ch.isalpha():
+            elif "a" <= ch <= "z" or "A" <= ch <= "Z":
                 digit = ord(ch.lower()) - ord("a") + 10
             else:
                 break
             if digit >= radix:
                 break
-            result = result * radix + digit
-            found = True
-        if not found:
+            end += 1
+        if end == 0:
             return float("nan")
-        return sign * result
+        result = int(s[:end], radix)
+        if result == 0:
+            return -0.0 if negative else 0
+        return as_double(-result if negative else result)
 
     # StrDecimalLiteral: what parseFloat reads from the front of its argument
     _STR_DECIMAL_PREFIX = re.compile(
